@@ -98,6 +98,10 @@ def make_geo(spec, kvs):
 
 def make_kvs(case):
     from pyiga import bspline
+    if case.get('identical_kv'):
+        # equal knot vectors are one and the same KnotVector object (as in `2 * (kv,)`)
+        made = {}
+        return tuple(made.setdefault((k['p'], tuple(k['kv'])), bspline.KnotVector(unhx(k['kv']), k['p'])) for k in case['kvs'])
     return tuple(bspline.KnotVector(unhx(k['kv']), k['p']) for k in case['kvs'])
 
 
